@@ -432,6 +432,9 @@ func finish(an *analysis) *outTable {
 	for _, u := range an.order {
 		if len(u.entry) > 0 {
 			for _, it := range sortedLocks(u.entry) {
+				if (strings.HasPrefix(it.Mu, "<-") && !usable(an, it.Mu[2:])) || (strings.HasPrefix(it.Mu, "!") && !usable(an, it.Mu[1:])) {
+					continue
+				}
 				t.EntryLocks[u.name] = append(t.EntryLocks[u.name], it.Mu)
 			}
 		}
